@@ -249,6 +249,7 @@ class C19(Harness):
         fired = None
         outcome = None
         twice_schema = None
+        reuse_error = None
         with Tracker(plan) as tr:
             try:
                 if scen == 'schema':
@@ -264,9 +265,14 @@ class C19(Harness):
                         sl.loadURL(os.path.join(d, 'schema.xml'))
                     except (Injected, OSError, ZConfig.ConfigurationError) as e:
                         first = e
-                    twice_schema = sl.loadURL(os.path.join(d, 'schema.xml'))
                     if first is not None:
+                        # the injected fault fires once: the retry on the SAME loader must succeed
+                        try:
+                            twice_schema = sl.loadURL(os.path.join(d, 'schema.xml'))
+                        except Exception as e:
+                            reuse_error = type(e).__name__
                         raise first
+                    twice_schema = sl.loadURL(os.path.join(d, 'schema.xml'))
                 else:
                     # the schema itself is loaded inside the tracked region as well
                     schema = ZConfig.loadSchema(os.path.join(d, 'schema.xml'))
@@ -291,7 +297,9 @@ class C19(Harness):
             n, res_closed, streams_closed = tr.report()
         # a later clean load must behave as on a fresh schema
         later = self._clean(d)
-        if scen == 'schema-twice' and later[0] == 'ok' and twice_schema is not None:
+        if reuse_error is not None:
+            later = ('retry-on-reused-loader-failed', reuse_error)
+        elif scen == 'schema-twice' and later[0] == 'ok' and twice_schema is not None:
             # ... and so must a load against the schema the re-used loader handed out
             try:
                 cfg, _ = ZConfig.loadConfig(twice_schema, os.path.join(d, 'c1', 'main.conf'))
